@@ -54,6 +54,14 @@ CHECKS = {
         "io.StringIO, open and pcpp are stubbed inside the traced harnesses; MSVC is decided at filter level only (cl.exe not installed). CrossHair's negative-slice bug is patched in the runner (vf/chrun.py).",
         "DESIGN.md 3/C19",
     ),
+    "C20": (
+        "model_checking",
+        "CrossHair (z3) symbolic execution of the real parse_file / CxxParser.__init__ with open(), sys.stdin and os.fsdecode stubbed and symbolic path and encoding strings; tools (nondefault_repr, CLI json, SimpleCxxVisitor) compared on a corpus regenerated from /repo/tests; concrete confirmation per encoding",
+        "For every path string (str and os.PathLike) and every encoding string or None inside the bound CrossHair confirms over all paths that the file is opened exactly once, in text mode, with that "
+        "path and encoding (default utf-8-sig), that '-' reads stdin and opens nothing, and that the result equals parse_string of the content. The tool identities are checked on ~250 regenerated programs.",
+        "Bound: paths <=4 chars, encodings <=6 chars, four contents. open/stdin/os.fsdecode are stubs (codecs and OS trusted). Tool comparisons are concrete (translation-validation style) over the test-suite corpus.",
+        "DESIGN.md 3/C20",
+    ),
 }
 
 NOT_YET = "no check landed yet in this build (planned engine and bounds: DESIGN.md section 3); not claimed until the check runs green"
